@@ -526,6 +526,37 @@ def scenario_cases(rng, tier, pool, other_confirmed, unconf, stats):
                 f = C.npdu_routed(bytes(a), snet, sadr)
             od.rx(node, f); script.append(f)
         keep('dev:routed-maclen', od, {'family': 'routed requests, source/destination MAC lengths', 'slen': L, 'frames': [f.hex() for f in script]})
+
+    # every value of the fields of the fixed header that leave it intact (wave 6): the run walks through ALL invoke IDs 0..255
+    # (four per scenario; 0 and 255 are ordinary IDs), the second octet takes any value (reserved bit, max-segments code,
+    # max-APDU code incl. reserved ones), the low bits of the first (reserved bit, segmented-response-accepted) and the NPCI
+    # priority / expecting-reply bits vary; valid and mutated requests of every service, two stations, an ID reused at once
+    ids = list(range(256))
+    if big:
+        ids = ids * 3
+    rng.shuffle(ids)
+    for k in range(0, len(ids), 4):
+        od = ObservedDevice()
+        w = od.w
+        script = []
+        mine = ids[k:k + 4]
+        if rng.random() < 0.5:
+            mine = mine + [rng.choice(mine)]        # the same ID again, from the same or the other station
+        for inv in mine:
+            name, apdu = rng.choice(pool)
+            if rng.random() < 0.3:
+                apdu = rng.choice(C.mutations(rng, apdu, 2))[1]
+            a = bytearray(apdu)
+            a[2] = inv
+            if rng.random() < 0.3:
+                a[1] = rng.randrange(256)
+            a[0] = (a[0] & 0xFC) | rng.choice([0, 0, 1, 2, 3])
+            f = bytes([1, rng.choice([4, 4, 0, 5, 7])]) + bytes(a)
+            od.rx(rng.choice([w.raw, w.raw, w.raw2]), f); script.append(f)
+            if rng.random() < 0.2:
+                od.adv(rng.choice([0.5, 4.0]))
+        keep('dev:header-fields', od, {'family': 'fixed-header field values (invoke ID 0..255, second octet, flag bits)', 'invoke_ids': mine,
+                                       'frames': [f.hex() for f in script]})
     return out
 
 
